@@ -35,6 +35,14 @@ TOLERATED = {
 }
 
 
+# sends whose raw Response is interpreted by the sender itself (no extract_send_result, no local is_success gate)
+RAW_RESPONSE = {
+    ("fil_actor_evm::interpreter::system::System::<'r, RT>::send_raw", None): 'EVM CALL: the exit code becomes the call\'s status word',
+    ('fil_actor_miner::notifications::send_notification', 'K:SECTOR_CONTENT_CHANGED'): 'a failed notification is an explicit, logged, per-recipient outcome',
+    ('fil_actors_runtime::runtime::Runtime::send_simple', None): 'trait default forwarding to send',
+}
+
+
 def run(prog, rep, tier, cfg):
     X = Ctx(prog, rep)
     rep.explanation = LEVEL_TEXT
@@ -58,6 +66,13 @@ def run(prog, rep, tier, cfg):
                      'this send is in the tolerated table (%s) and must inspect, not drop, its result (fate %s)' % (tol, s.fate), s.c.where,
                      {'rule': 'K8', 'fn': f.id, 'method': sendsmod.pretty(s.method), 'fate': s.fate, 'tolerated_because': tol})
     rep.floor('K8', 'send_sites_classified', n, 57)
+    # ---- K8: a callee abort is visible only in Response.exit_code - every send must inspect it
+    n2 = sendsmod.exit_code_rule(X, rep, sendsmod.all_sends(prog), RAW_RESPONSE)
+    rep.floor('K8', 'send_sites_exit_code', n2, 57)
+    ESR = X.fn('builtin::shared::extract_send_result', 'fil_actors_runtime')
+    cs = [(c, arm) for (c, arm) in X.find_conds(ESR, m_pred('ExitCode::is_success', [], True)) if arm in c.arms]
+    rep.need('K6b', 'extract_send_result:non-zero-exit-is-err', len(cs) == 1 and not ESR.ok_returns_from([0], removed=[X.edge(*cs[0])]),
+             'extract_send_result returns Ok only behind exit_code.is_success()', X.loc(ESR))
     # ---- cron actor: the tick itself cannot return an error after the loop starts
     ET = X.fn('Actor::epoch_tick', CR)
     snd = [c for c in ET.calls if sendsmod.is_send(c)]
